@@ -207,6 +207,26 @@ func equals(t types.Type, x, y value) value {
 		return x == y.(*omap)
 	case structure:
 		ys := y.(structure)
+		if n, ok := t.(*types.Named); ok && n.Obj().Name() == "Value" && n.Obj().Pkg() != nil && n.Obj().Pkg().Path() == "reflect" && len(x) == 3 && len(ys) == 3 {
+			// reflect.Value == reflect.Value (the model's two fields are not
+			// what the declared struct type says): the zero Value equals only
+			// the zero Value; two Values of a pointer are equal when type and
+			// pointer are.
+			xt, xok := x[0].(rtype)
+			yt, yok := ys[0].(rtype)
+			if !xok || !yok || xt.t == nil || yt.t == nil {
+				return (!xok || xt.t == nil) == (!yok || yt.t == nil)
+			}
+			if !types.Identical(xt.t, yt.t) {
+				return false
+			}
+			xp, xpok := rvGet(x).(*value)
+			yp, ypok := rvGet(ys).(*value)
+			if xpok && ypok {
+				return xp == yp
+			}
+			unsupported("comparison of reflect.Values that are not pointers")
+		}
 		tStruct := t.Underlying().(*types.Struct)
 		var acc value = true
 		for i, n := 0, tStruct.NumFields(); i < n; i++ {
